@@ -579,7 +579,7 @@ REAL_ERRORS = (AssertionError, AttributeError, TypeError, ValueError, IndexError
 # ------------------------------------------------------------------ generic job driver
 def max_keys(spec):
     k = spec[0]
-    if k == 'sc':
+    if k in ('sc', 'i', 's', 'b', 'n'):
         return 0
     if k == 'dict':
         return max([len(spec[1])] + [max_keys(v) for _, v in spec[1]])
